@@ -1,20 +1,20 @@
 import sys; sys.path.insert(0, "/verif")
-import pickle
-from engine.facts import Facts
+from engine import pipeline
 from engine.absint import Interp
 from engine.models import M
-from engine.lin import show_lin
-F=Facts('/tmp/facts/etherparse.json')
-try:
-    sites,inv=pickle.load(open('/tmp/e1_sites.pkl','rb'))
-except Exception: inv={}
+from engine.lin import show_lin, lin_from_key
+from engine.axioms import load_axioms, trusted_ctx_set
+F=pipeline.load_facts('std')
+e1=pipeline.ensure_e1('std','quick')
+inv={sp:{"top":v["top"],"disjuncts":[[lin_from_key(k) for k in d] for d in v["disjuncts"]],"atoms":v.get("atoms",{})} for sp,v in e1["inv"].items()}
 b=F.bodies[sys.argv[1]]
 I=Interp(F,M,inv,max_depth=int(sys.argv[3]) if len(sys.argv)>3 else 2)
+I.rootset=frozenset(e1["roots"])
 I.analyze_root(b)
 pat=sys.argv[2] if len(sys.argv)>2 else ''
 for o in I.sink.obligs:
     if (not o.proved) and pat in (o.sp or ''):
         print("UNPROVED",o.kind,o.fn,o.site,o.sp,o.desc,'|',o.detail[:1500],'| ctx',[c[0].split('::')[-1] for c in o.ctx])
 for e in I.sink.events:
-    if e[0] in ('abort','loop','unmodelled'): print(e)
+    if e[0] in ('abort','loop','unmodelled','loop_term'): print(e)
 print(len(I.sink.obligs), I.steps)
